@@ -1,21 +1,32 @@
 import Gimli.Lemmas.Eval
 /-!
-# C07: the `u32` iteration counter at `max_iterations = u32::MAX` (finding C07-2)
+# C07: the `u32` iteration counter at its extremes (regression for finding C07-2)
 
-`self.iteration += 1` in `evaluate_internal` is an unchecked `u32` addition. With the largest
-limit the test `iteration > max_iterations` can never succeed, so on an endless loop the counter
-reaches `u32::MAX` and the next increment overflows: a panic with overflow checks, a wrap to 0 (and
-an evaluation that never ends) without. Reproduced on the real crate: 27 s to the panic at
-`src/read/op.rs:2024` in an overflow-checked build; still running after 5 x that time otherwise.
+Before the `fix:` ("expression iteration counter overflow") `evaluate_internal` did
+`self.iteration += 1` *before* comparing with the limit: with `max_iterations = u32::MAX` the test
+could never succeed and the increment overflowed after `2^32` iterations (panic with overflow
+checks at `src/read/op.rs:2024`, a wrap to 0 and an evaluation that never ended without; both
+reproduced on the real crate). Now the comparison `iteration >= max` comes first and the increment
+saturates. These theorems pin the repaired behaviour on the endless loop `DW_OP_skip -3`.
 -/
 open Gimli Gimli.Op Gimli.Eval
 namespace Gimli.Eval
+
+/-- `DW_OP_skip -3`: a one-operation endless loop -/
 def selfLoop : Bytes := [0x2f, 0xfd, 0xff]
-def lcfg (mode : Mode) : Config :=
+
+def loopCfg (mode : Mode) (mx : Option Nat) : Config :=
   { endian := .little, encoding := ⟨4, .dwarf32, 4⟩, caps := {}, mode := mode, objectAddress := none,
-    maxIterations := some (2 ^ 32 - 1), addrMask := 2 ^ 32 - 1 }
-def lm : Mach := { bytecode := selfLoop, pc := selfLoop }
-theorem step1 (mode : Mode) : evaluateOneOperation (lcfg mode) lm = .ok (.incomplete, lm) := by
+    maxIterations := mx, addrMask := 2 ^ 32 - 1 }
+
+def loopMach : Mach := { bytecode := selfLoop, pc := selfLoop }
+
+/-- the evaluator inside that loop after `it` iterations -/
+def loopState (mode : Mode) (mx : Option Nat) (it dec : Nat) : Eval :=
+  { cfg := loopCfg mode mx, m := loopMach, iteration := it, state := .ready, decodes := dec }
+
+theorem selfLoop_op (mode : Mode) (mx : Option Nat) :
+    evaluateOneOperation (loopCfg mode mx) loopMach = .ok (.incomplete, loopMach) := by
   unfold evaluateOneOperation
   have : parse .little ⟨4, .dwarf32, 4⟩ selfLoop = .ok (.skip (-3), []) := by decide
   show (parse .little ⟨4, .dwarf32, 4⟩ selfLoop >>= _) = _
@@ -26,77 +37,61 @@ theorem step1 (mode : Mode) : evaluateOneOperation (lcfg mode) lm = .ok (.incomp
   rw [h2]
   rfl
 
-def loopState (mode : Mode) (it dec : Nat) : Eval :=
-  { cfg := lcfg mode, m := lm, iteration := it, state := .ready, decodes := dec }
-
-theorem selfLoop_step (mode : Mode) (k : Eval → Out (Request × Eval)) (it dec : Nat) :
-    loopBody k (loopState mode it dec) =
-      (bumpIteration mode it >>= fun it' =>
-        match overLimit (some (2 ^ 32 - 1)) it' with
-        | true => .err .rTooManyIterations
-        | false => k (loopState mode it' (dec + 1))) := by
+/-- one trip round the loop: the limit test on the current counter, then the same machine with the
+counter incremented (saturating) -/
+theorem selfLoop_step (mode : Mode) (mx : Option Nat) (k : Eval → Out (Request × Eval)) (it dec : Nat) :
+    loopBody k (loopState mode mx it dec) =
+      (match overLimit mx it with
+       | true => .err .rTooManyIterations
+       | false => k (loopState mode mx (saturatingInc it) (dec + 1))) := by
   unfold loopBody
-  have h1 : endOfExpression (loopState mode it dec).m = (false, lm) := rfl
+  have h1 : endOfExpression (loopState mode mx it dec).m = (false, loopMach) := rfl
   rw [h1]
-  simp only []
-  apply bind_congr'
-  intro it'
-  show (match overLimit (some (2 ^ 32 - 1)) it' with
+  show (match overLimit mx it with
         | true => _
         | false => _) = _
-  cases overLimit (some (2 ^ 32 - 1)) it' with
+  cases overLimit mx it with
   | true => rfl
   | false =>
     simp only []
-    show (evaluateOneOperation (lcfg mode) lm >>= _) = _
-    rw [step1]
+    show (evaluateOneOperation (loopCfg mode mx) loopMach >>= _) = _
+    rw [selfLoop_op]
     simp only [Out.bind_ok, afterOp]
-    have h2 : endOfExpression lm = (false, lm) := rfl
+    have h2 : endOfExpression loopMach = (false, loopMach) := rfl
     rw [h2]
     rfl
 
-/-- release build: the counter wraps from `u32::MAX` to 0, the limit error never comes -/
-theorem selfLoop_release_never_stops : ∀ (fuel it dec : Nat), it < 2 ^ 32 →
-    evaluateInternal fuel (loopState .release it dec) = .diverge := by
-  intro fuel
-  induction fuel with
-  | zero => intro it dec _; rfl
-  | succ fuel ih =>
-    intro it dec hit
-    rw [evaluateInternal, selfLoop_step]
-    unfold bumpIteration
-    by_cases h : it + 1 < 2 ^ 32
-    · rw [if_pos h]
-      simp only [Out.bind_ok]
-      have : overLimit (some (2 ^ 32 - 1)) (it + 1) = false := by simp [overLimit]; omega
-      rw [this]
-      exact ih _ _ h
-    · rw [if_neg h]
-      simp only [Out.bind_ok]
-      have : overLimit (some (2 ^ 32 - 1)) 0 = false := by simp [overLimit]
-      rw [this]
-      exact ih _ _ (by omega)
-
-/-- debug build: after `u32::MAX` iterations the increment panics -/
-theorem selfLoop_debug_panics : ∀ (n it dec : Nat), it + n = 2 ^ 32 - 1 →
-    evaluateInternal (n + 1) (loopState .debug it dec) = .panic "attempt to add with overflow" := by
+/-- with the largest limit the endless loop is stopped by `TooManyIterations` after exactly
+`u32::MAX` operations (it used to overflow the counter instead) -/
+theorem selfLoop_u32_max_limit (mode : Mode) : ∀ (n it dec : Nat), it + n = 2 ^ 32 - 1 →
+    evaluateInternal (n + 1) (loopState mode (some (2 ^ 32 - 1)) it dec) = .err .rTooManyIterations := by
   intro n
   induction n with
   | zero =>
     intro it dec h
     rw [evaluateInternal, selfLoop_step]
-    unfold bumpIteration
-    rw [if_neg (by omega)]
-    rfl
+    have : overLimit (some (2 ^ 32 - 1)) it = true := by simp [overLimit]; omega
+    rw [this]
   | succ n ih =>
     intro it dec h
     rw [evaluateInternal, selfLoop_step]
-    unfold bumpIteration
-    rw [if_pos (by omega)]
-    simp only [Out.bind_ok]
-    have : overLimit (some (2 ^ 32 - 1)) (it + 1) = false := by simp [overLimit]; omega
+    have : overLimit (some (2 ^ 32 - 1)) it = false := by simp [overLimit]; omega
     rw [this]
+    simp only []
+    have hs : saturatingInc it = it + 1 := by unfold saturatingInc; rw [if_pos (by omega)]
+    rw [hs]
     exact ih _ _ (by omega)
 
+/-- without a limit the counter saturates: however long the loop runs there is no panic (in either
+build mode) — only fuel runs out -/
+theorem selfLoop_no_limit_never_panics (mode : Mode) : ∀ (fuel it dec : Nat),
+    evaluateInternal fuel (loopState mode none it dec) = .diverge := by
+  intro fuel
+  induction fuel with
+  | zero => intro it dec; rfl
+  | succ fuel ih =>
+    intro it dec
+    rw [evaluateInternal, selfLoop_step]
+    exact ih _ _
 
 end Gimli.Eval
